@@ -286,6 +286,7 @@ def proj_lattice(m):
 def run_history(inst, cf, ops, unique=False, snapshots=True, matcher=None):
     """ops: list of (op, arg).  Returns list of observation dicts (one per op)."""
     cf = dict(cf)
+    common.install_stamps()
     m = matcher if matcher is not None else mk_matcher(inst, cf)
     out = []
     import logging
@@ -318,6 +319,8 @@ def _run_history(m, cf, ops, unique, snapshots, out):
             o['exc'] = repr(ex)[:300]
             o['states'], o['idx'] = None, -99
         o['path'] = [proj_entry(x) for x in (m.lattice_best or [])]
+        o['pstamp'] = [common.stamp_of(x) for x in (m.lattice_best or [])]
+        o['partial'] = sum(common.partial_replacements(m).values())
         o['now'] = m.expand_now
         o['early'] = -1 if m.early_stop_idx is None else m.early_stop_idx
         try:
